@@ -14,6 +14,11 @@ pub struct FvCfg {
     pub ep: EpCfg,
     pub unsub: bool,
     pub lists: Vec<Vec<String>>,
+    /// a QoS 1 PUBLISH with the request's packet id is still being handled (gated handler) when the request arrives:
+    /// an invalid filter is a protocol error all the same, whatever else is wrong with the packet (seeded change
+    /// C18_r10 looked at the packet id first and answered "identifier in use"); only lists with an invalid filter
+    /// are judged in this variant
+    pub busy_id: bool,
 }
 
 #[derive(Clone, Copy, Debug, PartialEq, Eq)]
@@ -60,6 +65,9 @@ impl Scenario for Fv {
         let FEv::Case(i) = ev;
         self.case = Some(i as usize);
         let l = &self.cfg.lists[i as usize];
+        if self.cfg.busy_id {
+            self.conn.send(&crate::refmqtt::publish(1, 7, "t", b"p"));
+        }
         let p = if self.cfg.unsub {
             Pkt::Unsubscribe { pid: 7, props: vec![], filters: l.clone() }
         } else {
@@ -86,6 +94,9 @@ impl Scenario for Fv {
         let want_kind = format!("{}:{}", if self.cfg.unsub { "unsub" } else { "sub" }, l.join(","));
         let seen: Vec<String> = self.conn.log.snapshot().iter().filter_map(|(_, r)| if let Rec::PEnter { kind, .. } = r { Some(kind.clone()) } else { None }).collect();
         let acked = self.conn.out.iter().any(|(_, p)| matches!(p, Pkt::SubAck { pid: 7, .. } | Pkt::UnsubAck { pid: 7, .. }));
+        if all_valid && self.cfg.busy_id {
+            return Ok(Outcome { obs: "valid list with a busy id: not judged".into(), nontrivial: false });
+        }
         if all_valid {
             if !stops.is_empty() || self.conn.done() {
                 return Err(Violation::new("connection-validation", self.wit("rejects-valid"), format!("a list of valid filters ended the connection ({stops:?}): {}", self.detail())));
@@ -140,7 +151,9 @@ pub fn configs(full: bool) -> Vec<FvCfg> {
         for unsub in [false, true] {
             let mut ep = EpCfg::new(ver, Role::Server);
             ep.proto_auto = true;
-            v.push(FvCfg { ep, unsub, lists: lists.clone() });
+            v.push(FvCfg { ep: ep.clone(), unsub, lists: lists.clone(), busy_id: false });
+            ep.handler_auto = false;
+            v.push(FvCfg { ep, unsub, lists: lists.iter().filter(|l| l.iter().any(|f| !crate::c18::ref_valid_filter(f))).cloned().collect(), busy_id: true });
         }
     }
     v
